@@ -5,9 +5,9 @@ import vlib, linq_ops as L
 from vlib import to_tangelo_gate, dump_tangelo_gate, np_circuit_unitary, same_up_to_phase, tangelo_dump_to_specs
 
 CLAIM = {
- "text": "Proof (Lean 4), partial at pass level: for every gate of the supported set Gate.inverse is proved to denote the inverse operation and Circuit.inverse to undo the circuit on every state of every register size (induction over the gate list); the local rewrite rules used by the simplification passes are proved sound for all angles, targets and control lists (merging two rotations = rotation by the sum; a gate followed by its inverse = identity; rotation by 0 = identity; uncontrolled rotations are 2pi-periodic up to the phase -1 and every rotation is exactly 4pi-periodic, which is the period == must use for CRX/CRY/CRZ); concatenation is proved to compose semantics; the Clifford decomposition table regenerated from /repo is proved correct row by row by kernel computation in Q(zeta_16). One whole pass is proved: remove_small_rotations - if every rotation it drops denotes +- the identity (exact multiples of the period; the float threshold is an input of the model), the output circuit implements the input's operation up to one global sign on every state of every register size (linearity of every operation + induction over the gate list with a keep-mask). The semantic content of one step of the other two passes is proved as well: operations on disjoint qubit sets commute (all pairs of kinds), so a gate can be moved across any block of gates touching none of its qubits, hence merging a rotation into the previous rotation on the same target/controls and cancelling a gate with its inverse are sound AT A DISTANCE (other gates in between), which is exactly what the per-qubit last-gate tables of merge_rotations / remove_redundant_gates license. NOT proved: the bookkeeping invariant of those tables over the whole loop, i.e. that the whole merge / cancel passes (per-qubit last-gate tracking with commuting gates in between), split, stack, trim and reindex preserve semantics - these are checked per generated instance, exactly, by the model (operator equality up to one global phase in Q(zeta_16)) and numerically on the real code. Tie to the code: transformation correspondence (model output gate list = Tangelo output gate list) on random circuits with correlated neighbours and edge angles.",
+ "text": "Proof (Lean 4): for every gate of the supported set Gate.inverse is proved to denote the inverse operation and Circuit.inverse to undo the circuit on every state of every register size (induction over the gate list); the local rewrite rules are proved sound for all angles, targets and control lists (merging two rotations = rotation by the sum; a gate followed by its inverse = identity; rotation by 0 = identity; uncontrolled rotations are 2pi-periodic up to the phase -1 and every rotation is exactly 4pi-periodic); operations on disjoint qubit sets commute (all pairs of kinds). ALL THREE simplification passes are proved as whole passes, by loop invariants over their bookkeeping: merge_rotations (theorem mergeRotations_sound: the per-qubit last-gate table is proved right after every iteration - recorded position holds a gate on that qubit and no later gate touches it - hence every fold of a rotation into an earlier one is a merge at a distance; the output implements EXACTLY the input's operation), remove_small_rotations (removeSmall_sound, up to one sign), remove_redundant_gates (removeRedundant_sound: the per-qubit stacks are proved to list exactly the unmarked earlier gates on that qubit, most recent first, so every cancellation - also cascading ones and interleaved pairs - is a cancellation at a distance; up to one sign), and their iteration simplify (simplify_sound, any max_cycles, induction over the cycles). The float decisions of the code (Gate.__eq__ tolerance, threshold test) enter these theorems as explicit hypotheses on the decision functions (equal gates: same qubits and same operation up to sign; dropped rotations: +- identity), proved satisfied by exact equality / exact zero test (simplify_sound_exec has no float hypothesis left); trim_qubits and reindex_qubits are proved to act on the relabelled register as the original on the original one (an injective relabelling of qubit labels is constructed from the code's index table; theorems trim_sem, reindex_sem); concatenation composes, repetition iterates (add_sem, mul_sem), copy keeps the gate list; the Clifford decomposition table regenerated from /repo is proved correct row by row by kernel computation in Q(zeta_16). NOT proved as theorems: split and stack (tensor-product statement) - checked per generated instance, exactly, by the model (operator equality up to one global phase in Q(zeta_16)) and numerically on the real code. Tie to the code: transformation correspondence (model output gate list = Tangelo output gate list) on random circuits with correlated neighbours and edge angles.",
  "note": "Trusted: Lean kernel, axioms propext/Classical.choice/Quot.sound, table extractor, correspondence harness (sampled), numpy oracle for the search. Float decisions (== rounding, small-rotation threshold) are abstracted as parameters in the theorems and evaluated in Float by the driver; cases within 1e-9 of a discontinuity are discarded and counted. The threshold bound for dropped rotations (|theta|/2 per gate) is checked numerically only.",
- "technique": "Lean 4 semantic theorems (inverse, local rewrite rules, periodicity, Clifford table by kernel computation) + transformation correspondence + exact per-instance operator equality in the model"}
+ "technique": "Lean 4 semantic theorems (inverse; whole-pass soundness of merge_rotations, remove_small_rotations, remove_redundant_gates and simplify by loop invariants; relabelling for trim/reindex; periodicity; Clifford table by kernel computation) + transformation correspondence + exact per-instance operator equality in the model"}
 
 RULE = ("random circuits (width 1-5, 1-14 gates) over the invertible gate set with correlated neighbours (repeats, inverses, shifted by 2pi/4pi, "
         "re-parametrised) and angles from {multiples of pi/4, generic, near 0/2pi/4pi, beyond 2pi}; every transformation applied to each; "
@@ -279,7 +279,7 @@ def clifford_sweep(ctx):
 
 def run(ctx):
     rng = ctx.rng
-    n = ctx.n(220, 6000)
+    n = ctx.n(220, 1400)
     for i in range(n):
         w = rng.randint(1, 5)
         specs = vlib.rand_gate_list(rng, w, rng.randint(1, 14), NAMES)
@@ -295,7 +295,7 @@ def run(ctx):
         ctx.case({"gates": specs, "n": fixed, "thr": thr}, nontrivial=any(c for _, c in ch))
         if not ok and len(ctx.mismatches) >= 3:
             break
-    for i in range(ctx.n(60, 1500)):
+    for i in range(ctx.n(60, 300)):
         if not sparse_case(ctx, rng):
             break
     clifford_sweep(ctx)
